@@ -501,6 +501,14 @@ def program_equivalence(prog1, prog2, compare_params=True, atol=1e-6, rtol=0):
     return nx.is_isomorphic(circuit[0], circuit[1], node_match)
 
 
+def _as_number(value):
+    """The value as a complex number (Python, NumPy and SymPy numbers), None for symbols and names."""
+    try:
+        return complex(value)
+    except (TypeError, ValueError):
+        return None
+
+
 def validate_gate_parameters(compiled, device=None):
     """Validates gate parameters against a device spec.
 
@@ -551,7 +559,12 @@ def validate_gate_parameters(compiled, device=None):
         if n1["name"] != n2["name"] or n1["modes"] != n2["modes"]:
             return False
         for x, y in zip(n1["args"], n2["args"]):
-            if isinstance(x, (int, float)) and isinstance(y, (int, float)) and not np.isclose(x, y):
+            x = _as_number(x)
+            if x is None:
+                # template parameter
+                continue
+            y = _as_number(y)
+            if y is None or not np.isclose(x, y):
                 return False
         return True
 
